@@ -79,7 +79,7 @@ int main(int argc, char** argv) {
                     std::ofstream o(cf);
                     o << d.substr(0, p1) << "\n" << unhex(d.substr(p1 + 1, p2 - p1 - 1)) << "\n" << d.substr(p2 + 1) << "\n";
                 }
-                std::string n, sk, cur, f;
+                std::string n, sk, cur, f, announced;
                 while (ls >> n >> sk >> cur >> f) {
                     setenv("BLOCH_VERIF_NOW", n.c_str(), 1);
                     unsetenv("CI"); unsetenv("BLOCH_OFFLINE");
@@ -89,16 +89,22 @@ int main(int argc, char** argv) {
                     std::string o;
                     { Capture cap; checkForUpdatesIfDue(unhex(cur)); o = cap.out.str(); }
                     int count = 0; size_t pos = 0;
-                    while ((pos = o.find("There is a new", pos)) != std::string::npos) { ++count; ++pos; }
+                    while ((pos = o.find("There is a new", pos)) != std::string::npos) {
+                        ++count;
+                        size_t a = o.find("version of Bloch, ", pos), b = o.find(". You currently have", pos);
+                        if (a != std::string::npos && b != std::string::npos && b > a)
+                            announced += " " + n + ":" + hex(o.substr(a + 18, b - a - 18));
+                        ++pos;
+                    }
                     printf("%d ", count);
                 }
                 unsetenv("BLOCH_VERIF_LATEST_TAG");
                 std::ifstream ci(cf);
                 std::string a, b, c;
                 if (ci && std::getline(ci, a) && std::getline(ci, b) && std::getline(ci, c))
-                    printf("| %s:%s:%s\n", a.c_str(), hex(b).c_str(), c.c_str());
+                    printf("| %s:%s:%s ||%s\n", a.c_str(), hex(b).c_str(), c.c_str(), announced.c_str());
                 else
-                    printf("| none\n");
+                    printf("| none ||%s\n", announced.c_str());
             }
         } catch (const std::exception& ex) {
             printf("EXC %s\n", ex.what());
